@@ -48,6 +48,8 @@ def puppet_scenario(sc):
         beh["on_term"] = "ignore"
     else:
         beh["on_term"] = f"late:{ot[1] * u}"
+        if ot[0] == "late_ok":
+            beh["term_exit"] = 0   # a graceful-shutdown handler: exit status 0 some time after the signal
     if not sc.get("stops", True):
         beh["tstp"] = "ignore"
     if sc.get("child"):
@@ -75,7 +77,7 @@ def coq_case(sc):
            f"{'Some ' + str(sc['ta']) if sc.get('ta') else 'None'}; grace := {ms(sc['grace'], u)}; "
            f"leak_timeout := {ms(sc['leak'], u)} |}}")
     ot = sc["on_term"]
-    react = {"exit": "OnTermExit", "ignore": "OnTermIgnore"}.get(ot) if isinstance(ot, str) else f"(OnTermLate {ms(ot[1], u)})"
+    react = {"exit": "OnTermExit", "ignore": "OnTermIgnore"}.get(ot) if isinstance(ot, str) else f"({'OnTermLateOk' if ot[0] == 'late_ok' else 'OnTermLate'} {ms(ot[1], u)})"
     beh = (f"{{| b_dur := {ms(sc['dur'], u)}; b_exit_ok := {vlib.coq_bool(sc.get('exit', 0) == 0)}; "
            f"b_on_term := {react}; b_hold := {ms(sc.get('hold', 0), u)}; b_stops := {vlib.coq_bool(sc.get('stops', True))} |}}")
     reqs, shuts = [], 0
@@ -513,7 +515,7 @@ def check_family(chk, rig, scs, oracle, tag, retries=2):
     obss = run_scenarios(rig, scs)
     for sc, p, o in zip(scs, preds, obss):
         chk.count("e2e_runs")
-        chk.count("on_term=" + (sc["on_term"] if isinstance(sc["on_term"], str) else "late"))
+        chk.count("on_term=" + (sc["on_term"] if isinstance(sc["on_term"], str) else sc["on_term"][0]))
         chk.count("signals=" + ",".join(n for _, n in sc["sigs"]) if sc["sigs"] else "signals=none")
         why = oracle(sc, o)
         diff = compare(sc, p, o) if o.get("started") else []
